@@ -195,3 +195,60 @@ class ChoicePolicy:
         if not quiescent and c is not None:
             self.early_used += 1
         return c
+
+
+class FaultyBehaviour(RandomBehaviour):
+    """Compliant random behaviour except for ONE malformed reply (C13 families).
+    fault = {"sid", "k", "req": "step"|"get_data", "how": [kind, arg]} with kind in
+    rel (t+arg), abs (arg), list_rel ([t+arg]), none, time_rel (output time t+arg), time_abs."""
+
+    def __init__(self, seed, fault, **kw):
+        super().__init__(seed, **kw)
+        self.fault = fault
+
+    def reply(self, ctx, p):
+        f = self.fault
+        rep = super().reply(ctx, p)
+        if p.sid != f["sid"] or p.k != f["k"] or p.kind != f["req"]:
+            return rep
+        kind, arg = (list(f["how"]) + [None])[:2]
+        t = ctx.steptime[p.sid]
+        if p.kind == "step":
+            rep.value = {"rel": lambda: t + arg, "abs": lambda: arg, "list_rel": lambda: [t + arg], "none": lambda: None}[kind]()
+        else:
+            data = rep.value
+            data.pop("time", None)
+            data["time"] = t + arg if kind == "time_rel" else arg
+        return rep
+
+
+class AgentBehaviour(RandomBehaviour):
+    """Random behaviour plus call-backs into mosaik during step() (C16 families).
+    agents = {agent sid: {"target": sid, "attr": input attr of the target, "p": probability}};
+    illegal = [{"sid", "k", "f": "set_data"|"get_data", "target"}] calls that must be refused."""
+
+    def __init__(self, seed, agents=None, illegal=(), **kw):
+        super().__init__(seed, **kw)
+        self.agents = agents or {}
+        self.illegal = list(illegal)
+
+    def reply(self, ctx, p):
+        rep = super().reply(ctx, p)
+        if p.kind != "step":
+            return rep
+        a = self.agents.get(p.sid)
+        r = self.rng(p.sid, "cb", p.k)
+        if a and r.random() < a.get("p", 0.7):
+            n = 1 + (r.random() < 0.25)
+            for j in range(n):
+                val = tok(p.sid, p.k, "sd" + (str(j) if j else ""))
+                rep.calls.append(("set_data", {f"{p.sid}.E0": {f"{a['target']}.E0": {a["attr"]: val}}}))
+        if a and a.get("get") and r.random() < 0.5:
+            rep.calls.append(("get_data", {f"{a['target']}.E0": [a["get"]]}))
+        for ill in self.illegal:
+            if ill["sid"] == p.sid and ill["k"] == p.k:
+                if ill["f"] == "set_data":
+                    rep.calls.append(("set_data", {f"{p.sid}.E0": {f"{ill['target']}.E0": {ill.get("attr", "i"): "illegal"}}}))
+                else:
+                    rep.calls.append(("get_data", {f"{ill['target']}.E0": [ill.get("attr", "p")]}))
+        return rep
